@@ -64,10 +64,38 @@ var c11Alphabet = []RegOp{
 	{Kind: "regconn", Target: "b3", Fail: "cancel"},
 }
 
-var probeKinds = []struct{ method, proto, codec, route string }{
+type probeKind struct{ method, proto, codec, route string }
+
+var probeKinds = []probeKind{
 	{"unary", "grpc", "proto", ""}, {"unary", "http", "json", ""}, {"unary", "http", "proto", ""},
 	{"upload", "grpc", "proto", ""}, {"upload", "http", "body", ""}, {"upload", "http", "json", "implicit"},
 	{"getmsg", "grpc", "proto", ""}, {"getmsg", "http", "json", ""}, {"getmsg", "http", "json", "implicit"},
+	// service-config routes of TestService.UnaryCall that share their literal
+	// prefix with annotated routes of Messaging (/v1/...) and Files
+	// (/files/...): they must survive whatever happens to those services
+	{"raw", "http", "json", "GET /v1/ts/unary"}, {"raw", "http", "json", "POST /files/ts/unary"},
+}
+
+// registryRules are the service-config rules every registrysim mux carries.
+var registryRules = []RuleSpec{{
+	Selector: tsvc + ".UnaryCall", Verb: "get", Template: "/v1/ts/unary",
+	Additional: []RuleSpec{{Verb: "post", Template: "/files/ts/unary", Body: "*"}},
+}}
+
+func mkProbe(r *core.Rand, id int, pk probeKind) ReqSpec {
+	sp := ReqSpec{ID: id, Proto: pk.proto, Codec: pk.codec, Method: pk.method, Route: pk.route, Weight: 2,
+		PathVar: r.PickS("a", "cat.jpg", "x-1"),
+		Msgs:    []MsgSpec{{Size: r.Pick(0, 5, 40), Seed: r.U64() >> 8}},
+		Handler: HandlerSpec{FailCode: 10, Resps: []MsgSpec{{Size: r.Pick(0, 7, 30), Seed: r.U64() >> 8}}}}
+	if pk.method == "upload" && sp.Msgs[0].Size == 0 {
+		sp.Msgs[0].Size = 3 // an empty HTTP body is "no body" for the mux (C03's subject)
+	}
+	if pk.method == "raw" {
+		verb, path, _ := strings.Cut(pk.route, " ")
+		sp.Route, sp.Msgs = "", nil
+		sp.Raw = &RawProbe{Verb: verb, Path: path, Selector: tsvc + ".UnaryCall", HasBody: verb == "POST"}
+	}
+	return sp
 }
 
 func genProbes(r *core.Rand, sc *MuxScenario, rounds int, full bool) {
@@ -82,13 +110,8 @@ func genProbes(r *core.Rand, sc *MuxScenario, rounds int, full bool) {
 				reps = 1 + r.Intn(2)
 			}
 			for i := 0; i < reps; i++ {
-				sp := ReqSpec{ID: id, Proto: pk.proto, Codec: pk.codec, Method: pk.method, Route: pk.route, Round: round, Weight: 2,
-					PathVar: r.PickS("a", "cat.jpg", "x-1"),
-					Msgs:    []MsgSpec{{Size: r.Pick(0, 5, 40), Seed: r.U64() >> 8}},
-					Handler: HandlerSpec{FailCode: 10, Resps: []MsgSpec{{Size: r.Pick(0, 7, 30), Seed: r.U64() >> 8}}}}
-				if pk.method == "upload" && sp.Msgs[0].Size == 0 {
-					sp.Msgs[0].Size = 3 // an empty HTTP body is "no body" for the mux (C03's subject)
-				}
+				sp := mkProbe(r, id, pk)
+				sp.Round = round
 				sc.Reqs = append(sc.Reqs, sp)
 				id++
 			}
@@ -97,7 +120,7 @@ func genProbes(r *core.Rand, sc *MuxScenario, rounds int, full bool) {
 }
 
 func genC11(r *core.Rand, run int) *MuxScenario {
-	sc := &MuxScenario{Prop: "C11", Knobs: Knobs{MaxRecv: 65536}, Local: []string{"-"}, SkipRegister: true, Sequential: true}
+	sc := &MuxScenario{Prop: "C11", Knobs: Knobs{MaxRecv: 65536}, Local: []string{"-"}, SkipRegister: true, Sequential: true, NoDefaultRules: true, Rules: registryRules}
 	sc.Backends = append([]BackendSpec(nil), c11Backends...)
 	var ops []RegOp
 	A := len(c11Alphabet)
@@ -282,9 +305,11 @@ func oracleRegistrySequential(prop string, mr *muxRun, res *RunResult) *Violatio
 				if len(rs.servedBy) > 1 {
 					return violationf(prop, "served-twice", pctx, "history [%s]: one request reached %v", hist, rs.servedBy)
 				}
-				if v := oracleStream(prop, mr, rs, cnt); v != nil {
-					v.Detail = "history [" + hist + "]: " + v.Detail
-					return v
+				if rs.spec.Raw == nil {
+					if v := oracleStream(prop, mr, rs, cnt); v != nil {
+						v.Detail = "history [" + hist + "]: " + v.Detail
+						return v
+					}
 				}
 			case out.Unimpl:
 				cnt[cProbeUnimplemented]++
